@@ -3,14 +3,24 @@
    boltProtocol.Decode / boltv2Protocol.Decode over the header block decoder that is in the tree
    (Gen/CodecSrc.v xp_hdr_checked is read from xprotocol/header.go and the bolt decoders on every run). *)
 From Coq Require Import List NArith Bool PeanoNat.
-From MV Require Import Lib.Bytes Lib.Dec Lib.Seg Gen.ProtoConsts Gen.CodecSrc Model.HeaderKV Model.Bolt Model.Xcodecs
+From MV Require Import Lib.Bytes Lib.Dec Lib.Seg Model.CodecParams Model.HeaderKV Model.Bolt Model.Xcodecs
   Proofs.HeaderKV Proofs.Bolt Proofs.Xcodecs.
+(* the generated files are only Required (never imported): every name below is the committed expected value of
+   Model/CodecParams.v unless it is qualified with MV.Gen. *)
+From MV Require Gen.ProtoConsts Gen.CodecSrc.
 (* the comparison functions used by the correspondence shards: imported so that they are rebuilt with this file *)
 From MV Require Model.BoltCheck Model.XCheck.
 Import ListNotations.
 Open Scope N_scope.
 
-Theorem c08_codec_translators_ok : ProtoConsts_translator_ok = true /\ CodecSrc_translator_ok = true.
+Theorem c08_codec_translators_ok : MV.Gen.ProtoConsts.ProtoConsts_translator_ok = true /\ MV.Gen.CodecSrc.CodecSrc_translator_ok = true.
+Proof. exact (conj eq_refl eq_refl). Qed.
+
+(* THE TIE of the constants and source shapes: what the translators read from /repo on this run equals, by conversion, the
+   values the models are written with and the theorems below are proved about (Model/CodecParams.v): field offsets, header
+   lengths, magic numbers, HTTP method set, HTTP/2 preface; and every repaired spot still has its repaired shape *)
+Theorem c08_codec_gen_matches_expected :
+  MV.Gen.ProtoConsts.ProtoConsts_all = ProtoConsts_all /\ MV.Gen.CodecSrc.CodecSrc_all = CodecSrc_all.
 Proof. exact (conj eq_refl eq_refl). Qed.
 
 (* For EVERY byte string in the read buffer and every content of its spare capacity: Decode yields a frame,
@@ -84,8 +94,8 @@ Proof. vm_compute. reflexivity. Qed.
    arbitrary functions here (hess, tp, st, rp are universally quantified): whatever they answer, MOSN's own
    framing code around them satisfies the statements.  The repaired spots are read from the source. ===== *)
 Theorem c08_codec_src_repaired :
-  dubbo_cmp_int = true /\ thrift_len_has_prefix = true /\ thrift_copies_frame = true /\
-  tars_reader_in_frame = true /\ tars_stype_in_frame = true.
+  MV.Gen.CodecSrc.dubbo_cmp_int = true /\ MV.Gen.CodecSrc.thrift_len_has_prefix = true /\ MV.Gen.CodecSrc.thrift_copies_frame = true /\
+  MV.Gen.CodecSrc.tars_reader_in_frame = true /\ MV.Gen.CodecSrc.tars_stype_in_frame = true.
 Proof. exact (conj eq_refl (conj eq_refl (conj eq_refl (conj eq_refl eq_refl)))). Qed.
 
 (* dubbo: decodeFrame computes the frame length as HeaderLen + DataLen in uint32; with 4 GiB or more buffered the
@@ -151,7 +161,7 @@ Proof. vm_compute. reflexivity. Qed.
    Lib/Seg.v feed/drain is the Dispatch loop with handleError's decision: a decode error closes THIS connection (EClose,
    buffer dropped, connection dead) or answers THIS request (EReply) and goes on - conn.go as repaired, read from the
    source (c08_dispatch_shape_ok).  mfeed/mrun: one dispatch state per connection, interleaved reads. *)
-Theorem c08_dispatch_shape_ok : dispatch_continues_after_reply = true /\ dispatch_progress_guard = true.
+Theorem c08_dispatch_shape_ok : MV.Gen.CodecSrc.dispatch_continues_after_reply = true /\ MV.Gen.CodecSrc.dispatch_progress_guard = true.
 Proof. exact (conj eq_refl eq_refl). Qed.
 
 (* the progress check of Dispatch (before := buf.Len() ... if buf.Len() >= before { return }): drain_g / feed_g are the loop
